@@ -1,6 +1,238 @@
+import Proofs.C07.Laws
+import Proofs.C07.Versions
+import Proofs.C07.DerPath
 /-!
-# C07 — property theorems only (see DESIGN.md §3 C07).
+# C07 — BIP32 derivation obeys the BIP's equations and its algebraic laws
+
+Property theorems only.  `E : Env α` bundles the group operations (`Btc.GroupOps α`), the MAC, HASH160 and
+the version table; the drivers run the same definitions with `Btc.Bip32.secpEnv` (secp256k1 through the
+shared transcription of btclib's arithmetic, HMAC-SHA512, the tables regenerated from `network.py`).
+Group laws enter only as `L : Btc.Lawful E.o G` (property C01's statement); sizes as `B : Bounds E`
+(`0 < n ≤ 2^256`, `p ≤ 2^256`), which `secp_bounds` discharges for the executable instance.
+
+* `deriveFold` is the BIP's definition: the plain fold of single child derivations, every step setting all
+  six fields.  `deriveB` is btclib's `_derive`: depth set up front, `indexes[:-1]` walked on a mutable
+  working record, parent fingerprint taken one step short of the end, the public key of the last parent
+  handed to the last step, the public tweak chain holding the point.
 -/
 namespace Props.C07
+open Btc Btc.Bip32
+
+variable {α : Type} {E : Env α}
+
+/-! ## T1 — btclib's last-step-special walk is the fold of BIP steps, on every field -/
+
+/-- T1 (private keys; no group law needed): for every path length, 0 and 1 included, `_derive` on a
+    private key returns exactly what folding CKDpriv returns — key, chain code, depth, index, parent
+    fingerprint, version — and refuses exactly when the fold refuses, with the same error. -/
+theorem deriveB_private_eq_fold (B : Bounds E) (x : XKey) (p : List Nat) (hprv : x.isPrivate = true)
+    (hd : x.depth + p.length ≤ MAX_DEPTH) : deriveB E x p none = deriveFold E x p := by
+  rw [deriveFold_eq' E x p hd]; exact deriveB_private B x p hprv hd
+
+/-- T1 (all keys): the same for public keys along unhardened paths, where the code's tweak chain holds a
+    point across the steps and the fold re-parses the 33 octets at each step. -/
+theorem deriveB_eq_fold {G : Type} [AddCommGroup G] (L : Lawful E.o G) (B : Bounds E) (x : XKey) (p : List Nat)
+    (hk : x.isPrivate = true ∨ ∀ i ∈ p, i < HARDENED) (hd : x.depth + p.length ≤ MAX_DEPTH) :
+    deriveB E x p none = deriveFold E x p := by
+  rw [deriveFold_eq' E x p hd]
+  cases hx : x.isPrivate with
+  | true => exact deriveB_private B x p hx hd
+  | false =>
+    rcases hk with h | h
+    · rw [hx] at h; cases h
+    · exact deriveB_public L B x p hx h hd
+
+/-- T1/T4 (depth): past depth 255 both descriptions refuse; the code says so before walking anything. -/
+theorem derive_too_deep (x : XKey) (p : List Nat) (f : Option Bytes) (hx : x.depth ≤ MAX_DEPTH)
+    (hd : x.depth + p.length > MAX_DEPTH) :
+    deriveB E x p f = .error .depth ∧ ∃ e, deriveFold E x p = .error e :=
+  ⟨deriveB_too_deep x p f hd, deriveFold_too_deep E x p hx hd⟩
+
+/-- T1 (fields): whatever `_derive` answers sits at the requested index and at depth + path length, with the
+    parent's version — an invalid child is never replaced by the next index. -/
+theorem deriveB_fields {G : Type} [AddCommGroup G] (L : Lawful E.o G) (B : Bounds E) (x y : XKey) (p : List Nat)
+    (hk : x.isPrivate = true ∨ ∀ i ∈ p, i < HARDENED) (h : deriveB E x p none = .ok y) :
+    y.depth = x.depth + p.length ∧ y.version = x.version ∧ y.isPrivate = x.isPrivate ∧
+    ∀ i, p.getLast? = some i → y.index = i := by
+  have hd : x.depth + p.length ≤ MAX_DEPTH := by
+    by_contra hc
+    rw [deriveB_too_deep x p none (by omega)] at h
+    cases h
+  rw [deriveB_eq_fold L B x p hk hd, deriveFold_eq' E x p hd] at h
+  exact deriveFold'_fields E x y p h
+
+/-- T1 (forced version): forcing a version is re-labelling the key first; the derivation never reads it. -/
+theorem deriveB_forced_version (x : XKey) (p : List Nat) (f : Bytes) (hf : f ≠ [])
+    (hd : x.depth + p.length ≤ MAX_DEPTH) :
+    deriveB E x p (some f) =
+      (forceVersion E x.version f).bind fun v => deriveB E { x with version := v } p none :=
+  deriveB_forced x p f hf hd
+
+/-! ## T2 — composition over every split of a path -/
+
+/-- T2 (the BIP's fold): deriving along `p ++ q` is deriving along `p`, then along `q` — as an equation
+    between results, refusals included. -/
+theorem deriveFold_compose (x : XKey) (p q : List Nat) :
+    deriveFold E x (p ++ q) = (deriveFold E x p).bind fun y => deriveFold E y q :=
+  deriveFold_append E x p q
+
+/-- T2 (btclib's `_derive`): whenever the first leg is defined, one call along the whole path equals two
+    calls along any split of it — on every field. -/
+theorem deriveB_compose {G : Type} [AddCommGroup G] (L : Lawful E.o G) (B : Bounds E) (x y : XKey) (p q : List Nat)
+    (hk : x.isPrivate = true ∨ ∀ i ∈ p ++ q, i < HARDENED)
+    (hd : x.depth + (p ++ q).length ≤ MAX_DEPTH) (h : deriveB E x p none = .ok y) :
+    deriveB E y q none = deriveB E x (p ++ q) none := by
+  have hkp : x.isPrivate = true ∨ ∀ i ∈ p, i < HARDENED :=
+    hk.imp id fun h i hi => h i (List.mem_append_left _ hi)
+  have hf := deriveB_fields L B x y p hkp h
+  have hdp : x.depth + p.length ≤ MAX_DEPTH := by simp at hd; omega
+  have hdq : y.depth + q.length ≤ MAX_DEPTH := by simp at hd; omega
+  have hkq : y.isPrivate = true ∨ ∀ i ∈ q, i < HARDENED := by
+    rcases hk with h | h
+    · left; rw [hf.2.2.1]; exact h
+    · right; exact fun i hi => h i (List.mem_append_right _ hi)
+  rw [deriveB_eq_fold L B x p hkp hdp] at h
+  rw [deriveB_eq_fold L B y q hkq hdq, deriveB_eq_fold L B x (p ++ q) hk hd, deriveFold_append, h]
+  rfl
+
+/-! ## T3 — neutering commutes with unhardened derivation, definedness included -/
+
+/-- T3 (the BIP's fold): for a valid xprv and an unhardened path, derive-then-neuter equals
+    neuter-then-derive as an equation between results: the left half out of range is refused at the same
+    index on both sides, and a zero private child is refused exactly where the public child is at infinity
+    (`Err.toPub` renames that one refusal). -/
+theorem neuter_derive {G : Type} [AddCommGroup G] (L : Lawful E.o G) (B : Bounds E) (x : XKey) (v : Bytes)
+    (p : List Nat) (hv : ValidPrv E x) (hver : E.pubVersion x.version = some v) (hp : ∀ i ∈ p, i < HARDENED) :
+    ((deriveFold E x p).mapError Err.toPub).bind (neuter E) =
+      (neuter E x).bind fun x' => deriveFold E x' p :=
+  neuter_deriveFold L B p x hv hver hp
+
+/-- T3 (btclib's shape): the same for `_derive` and `_xpub_from_xprv`, within the depth bound. -/
+theorem neuter_deriveB {G : Type} [AddCommGroup G] (L : Lawful E.o G) (B : Bounds E) (x : XKey) (v : Bytes)
+    (p : List Nat) (hv : ValidPrv E x) (hver : E.pubVersion x.version = some v) (hp : ∀ i ∈ p, i < HARDENED)
+    (hd : x.depth + p.length ≤ MAX_DEPTH) :
+    ((deriveB E x p none).mapError Err.toPub).bind (neuter E) =
+      (neuter E x).bind fun x' => deriveB E x' p none := by
+  rw [deriveB_eq_fold L B x p (Or.inr hp) hd, neuter_deriveFold L B p x hv hver hp, neuter_ok hv hver]
+  simp only [Except.bind]
+  exact (deriveB_eq_fold L B { x with version := v, key := pubOfPrv E x.prvInt } p (Or.inr hp) hd).symm
+
+/-! ## T4 — refusals -/
+
+/-- T4: a hardened child of a public key is refused. -/
+theorem hardened_from_public_refused (x : XKey) (i : Nat) (hi : i ≥ HARDENED) :
+    ckdPub E x i = .error .hardenedPub :=
+  ckdPub_hardened x i hi
+
+/-- T4: `_derive` refuses a public key along any path holding a hardened index (before walking it), and the
+    BIP fold refuses that path too. -/
+theorem hardened_path_from_public_refused (x : XKey) (p : List Nat) (hpub : x.isPrivate = false)
+    (hd : x.depth + p.length ≤ MAX_DEPTH) (hh : ∃ i ∈ p, i ≥ HARDENED) :
+    deriveB E x p none = .error .hardenedPub ∧ ∃ e, deriveFold E x p = .error e := by
+  refine ⟨deriveB_public_hardened x p hpub hd hh, ?_⟩
+  rw [deriveFold_eq' E x p hd]
+  exact deriveFold'_public_hardened p x hpub hh
+
+/-- T4: a left half that is no scalar, and a zero child, are refused with the index that was asked for. -/
+theorem invalid_private_child_refused (x : XKey) (i : Nat) (pub : Bytes) (h : Bytes × Bytes) :
+    (nN E ≤ ofBE h.1 → ckdPrivWith E x i pub h = .error (.childIL i)) ∧
+    (ofBE h.1 < nN E → (x.prvInt + ofBE h.1) % nN E = 0 → ckdPrivWith E x i pub h = .error (.childZero i)) := by
+  unfold ckdPrivWith
+  constructor
+  · intro h1; simp [h1]
+  · intro h1 h2; simp [Nat.not_le.mpr h1, h2]
+
+/-- T4: likewise the public child at infinity. -/
+theorem invalid_public_child_refused (x : XKey) (i : Nat) (P : α) (h : Bytes × Bytes) :
+    (nN E ≤ ofBE h.1 → ckdPubWith E x i P h = .error (.childIL i)) ∧
+    (ofBE h.1 < nN E → E.o.isZero (E.o.add P (E.o.mul ((ofBE h.1 : Nat) : Int) E.o.gen)) = true →
+      ckdPubWith E x i P h = .error (.childInf i)) := by
+  unfold ckdPubWith
+  constructor
+  · intro h1; simp [h1]
+  · intro h1 h2; simp [Nat.not_le.mpr h1, h2]
+
+/-- T4: a step that answers, answers the child at the index asked and one level down. -/
+theorem ckd_answers_requested_index (x y : XKey) (i : Nat) (h : ckd E x i = .ok y) :
+    y.index = i ∧ y.depth = x.depth + 1 ∧ y.depth ≤ MAX_DEPTH := by
+  unfold ckd at h
+  split at h
+  · cases h
+  · have := ckd'_fields E h
+    exact ⟨this.2.1, this.1, by omega⟩
+
+/-! ## T5 — the parent private key is recoverable from the parent xpub and an unhardened child xprv -/
+
+/-- T5: `crack (neuter parent) (CKDpriv parent i) = parent` for every unhardened `i` (the arithmetic of
+    `crack_prv_key_var` after its validity guards). -/
+theorem crack_recovers_parent (B : Bounds E) (x y : XKey) (v : Bytes) (i : Nat) (hv : ValidPrv E x)
+    (hi : i < HARDENED) (hc : ckdPriv E x i = .ok y) :
+    crackCore E { x with version := v, key := pubOfPrv E x.prvInt } y = .ok x :=
+  crackCore_ckdPriv B hv v i hi hc
+
+/-- T5: the same spelled with `neuter`. -/
+theorem crack_neuter_ckdPriv (B : Bounds E) (x x' y : XKey) (i : Nat) (hv : ValidPrv E x) (hi : i < HARDENED)
+    (hn : neuter E x = .ok x') (hc : ckdPriv E x i = .ok y) : crackCore E x' y = .ok x := by
+  cases hver : E.pubVersion x.version with
+  | none => simp [neuter, hver] at hn; split at hn <;> cases hn
+  | some v =>
+    rw [neuter_ok hv hver] at hn
+    cases hn
+    exact crackCore_ckdPriv B hv v i hi hc
+
+/-- T5: a hardened child is refused. -/
+theorem crack_hardened_refused (p c : XKey) (h1 : c.depth = p.depth + 1) (h2 : c.parentFp = fpOf E p.key)
+    (h3 : c.index ≥ HARDENED) : crackCore E p c = .error .hardenedChild := by
+  unfold crackCore; simp [h1, h2, h3]
+
+/-! ## T6 — path spellings -/
+
+-- T6-TEXT-PLACEHOLDER
+/-- T6 (bytes form): the 4-byte little-endian concatenation reads back to the list. -/
+theorem path_bytes_roundtrip (idx : List Nat) (hi : ∀ i ∈ idx, i < 2 ^ 32) :
+    ∃ b, DerPath.bytesFromIndexes idx = .ok b ∧ DerPath.indexesFromBytes b = .ok idx :=
+  DerPath.bytes_roundtrip idx hi
+
+/-! ## T7 — version pairing (about the tables regenerated from `btclib/network.py` each run) -/
+
+/-- T7: `xpubversion_from_xprvversion` is a bijection from the xprv versions onto the xpub versions, defined
+    exactly on the xprv versions; no version is both. -/
+theorem version_pairing_bijective :
+    (∀ v, (Gen.Bip32.pubVersion v).isSome ↔ v ∈ Gen.Bip32.XPRV_VERSIONS_ALL) ∧
+    (∀ v ∈ Gen.Bip32.XPRV_VERSIONS_ALL, ∃ w ∈ Gen.Bip32.XPUB_VERSIONS_ALL, Gen.Bip32.pubVersion v = some w) ∧
+    (∀ w ∈ Gen.Bip32.XPUB_VERSIONS_ALL, ∃ v ∈ Gen.Bip32.XPRV_VERSIONS_ALL, Gen.Bip32.pubVersion v = some w) ∧
+    (∀ v ∈ Gen.Bip32.XPRV_VERSIONS_ALL, ∀ v' ∈ Gen.Bip32.XPRV_VERSIONS_ALL,
+      Gen.Bip32.pubVersion v = Gen.Bip32.pubVersion v' → v = v') ∧
+    (∀ v ∈ Gen.Bip32.XPRV_VERSIONS_ALL, v ∉ Gen.Bip32.XPUB_VERSIONS_ALL) :=
+  ⟨pubVersion_isSome_iff, prv_all_paired, pub_all_paired, pub_injective, prv_pub_disjoint⟩
+
+/-- T7: the pairing preserves the network and the kind (xprv↔xpub, yprv↔ypub, …, position by position in
+    every network), every catalogued version belongs to a network, and no version is shared between a
+    mainnet and a test network. -/
+theorem version_pairing_network_preserving :
+    (∀ net ∈ Gen.Bip32.NETWORK_VERSIONS,
+      net.xprv.map Gen.Bip32.pubVersion = net.xpub.map some ∧ net.xprv.length = 5) ∧
+    (∀ a ∈ Gen.Bip32.NETWORK_VERSIONS, ∀ b ∈ Gen.Bip32.NETWORK_VERSIONS, a.isMain ≠ b.isMain →
+      ∀ v ∈ a.xprv ++ a.xpub, v ∉ b.xprv ++ b.xpub) ∧
+    (∀ v ∈ Gen.Bip32.XPRV_VERSIONS_ALL, ∃ net ∈ Gen.Bip32.NETWORK_VERSIONS, v ∈ net.xprv) ∧
+    (∀ v ∈ Gen.Bip32.XPUB_VERSIONS_ALL, ∃ net ∈ Gen.Bip32.NETWORK_VERSIONS, v ∈ net.xpub) :=
+  ⟨network_pairing, network_type_separated, network_versions_catalogued.2.1, network_versions_catalogued.2.2⟩
+
+/-- the constants the theorems are stated over are the ones the source has now, and the executable
+    instance meets the size hypotheses (`Bounds`) with `n` equal to `bip32._N_BYTES`. -/
+theorem instance_meets_bounds (mac : Bytes → Bytes → Bytes) :
+    Bounds (secpEnv mac) ∧ nN (secpEnv mac) = Gen.Bip32.N ∧ HARDENED = 2 ^ 31 ∧ MAX_DEPTH = 255 :=
+  ⟨secp_bounds mac, secp_n_eq mac, constants.1, constants.2.1⟩
+
+/-! ## non-vacuity -/
+
+-- a concrete valid private key (k = 1) under the executable instance
+example : ValidPrv (secpEnv) (XKey.mk [4, 136, 173, 228] 0 [0, 0, 0, 0] 0 (List.replicate 32 7) (0 :: beBytes 32 1)) := by
+  refine ⟨by decide, ?_, by decide⟩
+  rw [secp_n_eq]; decide
+example : Gen.Bip32.pubVersion [4, 136, 173, 228] = some [4, 136, 178, 30] := by decide
+example : (∀ i ∈ [0, 1, 2 ^ 31 - 1], i < HARDENED) ∧ (2 ^ 31 : Nat) ≥ HARDENED := by decide
+example : DerPath.indexesFromStr "m/44h/0'/1H/0".toList = .ok [2147483692, 2147483648, 2147483649, 0] := by decide
+example : DerPath.strFromIndexes [2147483692, 0] ['h'] = .ok "m/44h/0".toList := by decide
 
 end Props.C07
